@@ -47,6 +47,9 @@ type Server struct {
 	EmptyListRV bool
 	// frozen, when set, is what the next List to complete answers with (the state at the moment Freeze was called)
 	frozen *frozenList
+	// CancelLag makes a call that was waiting when its context got cancelled return only that much later (a client
+	// that is slow to give up)
+	CancelLag time.Duration
 	// Blocked counts Watch calls that are blocked until their context is cancelled (WatchBlock).
 	Blocked atomic.Int32
 	// Mixed makes List return a generic metav1.List of all stored objects, whatever their kinds.
@@ -270,6 +273,7 @@ func (s *Server) Watch(ctx context.Context, opts metav1.ListOptions) (watch.Inte
 	case WatchBlock:
 		s.Blocked.Add(1)
 		<-ctx.Done()
+		time.Sleep(s.CancelLag)
 		s.Blocked.Add(-1)
 		return nil, ctx.Err()
 	}
